@@ -138,7 +138,7 @@ def run(prop, tier):
     rng.shuffle(units)
     rng.shuffle(deny)
     nrand = (4, 60, 8) if tier == "quick" else (60, 150, 10)
-    base_lay = layouts[sorted(layouts)[0]]
+    base_lay = layouts["none.none.direct.t"]
     payloads = []
     uch, dch = lib.chunks(units, jobs), lib.chunks(deny, jobs)
     for j in range(jobs):
@@ -185,7 +185,7 @@ def run(prop, tier):
 
     # ---- validation ---------------------------------------------------------
     t1 = time.time()
-    mutants = selftest_traces(traces)
+    mutants = selftest_traces(base_lay)
     val = lib.validate_traces("CollectTrace", "CollectTrace.cfg", traces + mutants, jobs=jobs)
     print("timing: validation %.1fs (%d events, %d JVMs)" % (time.time() - t1, val["events"], val["jvms"]))
     byid = dict((t["id"], t) for t in traces + mutants)
@@ -215,10 +215,10 @@ def run(prop, tier):
                     % (ev["factory"], [" ".join(w) for w in ev["files"]], [" ".join(w) for w in ev["commands"]],
                        ev["comps"], bad, clause))
         verdict.reject(lib.sig(prop, clause), what, dict(trace_id=rj["id"], event=ev, layout=t["lay"], rejected=rj))
-    need = set((m["id"], m["expect"]) for m in mutants)
-    if need - mut_rejected:
-        raise lib.MachineryError("binding self-test: corrupted traces were not rejected: %s"
-                                 % sorted(need - mut_rejected))
+    need = set((m["id"], m["expect"]) for m in mutants if m["expect"] != "accepted")
+    if need != mut_rejected:
+        raise lib.MachineryError("binding self-test: expected rejections %s, got %s"
+                                 % (sorted(need), sorted(mut_rejected)))
 
     # ---- evidence -------------------------------------------------------------
     distinct = set()
@@ -257,42 +257,39 @@ def run(prop, tier):
     return verdict.finish(ev)
 
 
-def selftest_traces(traces):
-    """Binding demonstration (R5): corrupt one field of recorded traces; CollectTrace must reject."""
-    out = []
+def selftest_traces(lay):
+    """Binding demonstration (R5).  Hand-written events on a TLC-emitted layout (independent of the code under
+    test): the baseline must be accepted, each variant with one recorded field changed must be rejected with the
+    clause of the property the change breaks."""
     import copy
-    for t in traces:
-        if t["kind"] == "path" and not any(m["expect"] == "Contained" for m in out):
-            for i, e in enumerate(t["events"]):
-                if e["ev"] == "provide" and e["contents"] and not e["star"]:
-                    m = copy.deepcopy(t)
-                    m["events"] = [copy.deepcopy(e)]
-                    m["events"][0]["contents"] = [11]          # content of other/u
-                    m["id"] = "selftest/contained"
-                    m["expect"] = "Contained"
-                    out.append(m)
-                    break
-        if t["kind"] == "path" and not any(m["expect"] == "WritesUnderOut" for m in out):
-            for i, e in enumerate(t["events"]):
-                if e["ev"] == "persist" and e["written"]:
-                    m = copy.deepcopy(t)
-                    m["events"] = [copy.deepcopy(e)]
-                    m["events"][0]["written"].append(["t", "stray"])
-                    m["events"][0]["dsts"].append(["t", "stray"])
-                    m["id"] = "selftest/writes"
-                    m["expect"] = "WritesUnderOut"
-                    out.append(m)
-                    break
-        if t["kind"] == "deny" and not any(m["expect"] == "DenyRespected" for m in out):
-            e = t["events"][0]
-            if e["factory"] != "spec" and any(i["w"] in e["files"] + e["commands"] for i in e["items"]):
-                m = copy.deepcopy(t)
-                m["events"] = [copy.deepcopy(e)]
-                for i in m["events"][0]["items"]:
-                    i["acc"] = True
-                m["id"] = "selftest/deny"
-                m["expect"] = "DenyRespected"
-                out.append(m)
-        if len(out) == 3:
-            break
+    outloc = ["t", "out"] if lay["fs"][lay["out"] - 1]["p"] == 2 else ["out"]
+    L = dict(fs=lay["fs"], root=lay["root"], out=lay["out"])
+    prov = dict(ev="provide", via="direct", kind="text", ctx="host", path=["d", "g"], star=False, kstatus="ok",
+                knode=9, outcome="yielded", contents=[9], exc="")
+    pers = dict(ev="persist", via="direct", path=["d", "g"], saveas="none",
+                dsts=[outloc + ["data", "d", "g"], outloc + ["meta_data", "x.json"]],
+                written=[outloc + ["data", "d", "g"], outloc + ["meta_data", "x.json"]])
+    col = dict(ev="collect", factory="foreach_execute", kind="text", comp="", files=[], commands=[["/bin/echo"], ["/bin/ech"]],
+               comps=[], items=[dict(t="cmd", w=["/bin/echo", "ab"], acc=False), dict(t="cmd", w=["/bin/ls", "b"], acc=True)],
+               stored=False)
+    sym = dict(ev="collect", factory="spec", kind="text", comp="hosts", files=[["hosts"]], commands=[], comps=[],
+               items=[dict(t="file", w=["/etc/hosts"], acc=False)], stored=False)
+    out = [dict(id="selftest/base", expect="accepted", kind="path", lay=L, events=[prov, pers]),
+           dict(id="selftest/base-deny", expect="accepted", kind="deny", lay=dict(fs=[], root=[], out=0), events=[col, sym])]
+
+    def variant(tag, expect, base, fn):
+        m = copy.deepcopy(out[base])
+        fn(m["events"])
+        m["id"], m["expect"] = "selftest/" + tag, expect
+        out.append(m)
+
+    variant("outside", "Contained", 0, lambda e: e[0].update(contents=[10]))
+    variant("unidentified", "Contained", 0, lambda e: e[0].update(contents=[9, 0]))
+    variant("kernel", "R4.resolve", 0, lambda e: e[0].update(knode=7))
+    variant("stray", "WritesUnderOut", 0, lambda e: (e[1]["written"].append(["t", "stray"]), e[1]["dsts"].append(["t", "stray"])))
+    variant("dotdot", "WritesUnderOut", 0, lambda e: (e[1]["written"].append(outloc[:-1] + ["x"]),
+                                                      e[1]["dsts"].append(outloc + ["data", "..", "..", "x"])))
+    variant("unexplained", "R4.destination", 0, lambda e: e[1]["written"].append(outloc + ["data", "zz"]))
+    variant("cmd", "DenyRespected", 1, lambda e: e[0]["items"][0].update(acc=True))
+    variant("symbolic", "DenyRespected", 1, lambda e: e[1]["items"][0].update(acc=True))
     return out
